@@ -18,6 +18,9 @@
 #include <cppcms/cache_interface.h>
 #include <cppcms/service.h>
 #include <cppcms/json.h>
+#include <cppcms/http_context.h>
+#include <cppcms/http_response.h>
+#include "C07_dummy_api.h"
 #include <booster/intrusive_ptr.h>
 #include <set>
 #include <map>
@@ -133,7 +136,8 @@ static std::string in_child(F f)
 	if(pid<0) return "<harness fork failed>";
 	if(pid==0) {
 		close(fd[0]);
-		alarm(120);
+		signal(SIGSEGV,SIG_DFL); signal(SIGABRT,SIG_DFL); signal(SIGBUS,SIG_DFL); signal(SIGFPE,SIG_DFL); signal(SIGILL,SIG_DFL); signal(SIGALRM,SIG_DFL);
+		alarm(60);
 		std::string r;
 		try { r=f(); }
 		catch(std::exception const &e) { r=std::string("<exception ")+e.what()+">"; }
@@ -249,29 +253,135 @@ struct ifc_job {
 	}
 };
 
+// ---- through the cache_interface of a request context: frames, recorders AND fetch_page / store_page ----
+//   ifp <backend> <limit> <t0> <op> ...      ops of ifc, plus
+//        N:<gzip 0|1>        next request: new http::context (Accept-Encoding: gzip or none) and its cache_interface
+//                            (recorders still attached are destroyed first); the case starts with an implicit N:0
+//        G:<key>             fetch_page(key): h:<body> (h:Z when the request is gzip) or m; a hit finishes the response
+//        P:<key>:<data>:<secs>   response().out() << data; store_page(key,secs): finishes the response
+//        G and P print `skip` and do nothing once the response of the request is finished
+struct ifp_job {
+	std::vector<std::string> const *v; std::string backend; unsigned limit;
+	std::string operator()() const {
+		cppcms::json::value cfg;
+		if(backend=="t") cfg["cache"]["backend"]="thread_shared";
+		else { cfg["cache"]["backend"]="process_shared"; cfg["cache"]["memory"]=atoi(backend.c_str()+1); }
+		cfg["cache"]["limit"]=int(limit);
+		cfg["service"]["api"]="http"; cfg["service"]["port"]=0; cfg["service"]["worker_threads"]=1;
+		cppcms::service srv(cfg);
+		std::vector<cppcms::triggers_recorder *> recs;
+		booster::shared_ptr<cppcms::http::context> ctx;
+		std::string output;
+		bool finished=false,gz=false;
+		std::string out;
+		for(size_t i=3;i<v->size();i++) {
+			std::vector<std::string> f;
+			if(i==3) { f.push_back("N"); f.push_back("0"); }
+			else f=splitc((*v)[i],':');
+			std::string const &o=f[0];
+			std::string tok;
+			if(o=="N" && f.size()==2) {
+				for(size_t j=recs.size();j>0;j--) delete recs[j-1];
+				recs.clear();
+				ctx.reset();
+				output.clear();
+				gz=(f[1]=="1"); finished=false;
+				std::map<std::string,std::string> env;
+				env["HTTP_HOST"]="www.example.com"; env["SCRIPT_NAME"]="/foo"; env["PATH_INFO"]="/bar"; env["REQUEST_METHOD"]="GET";
+				if(gz) env["HTTP_ACCEPT_ENCODING"]="gzip, deflate";
+				booster::shared_ptr<c07_dummy_api> api(new c07_dummy_api(srv,env,output));
+				ctx.reset(new cppcms::http::context(api));
+				ctx->response().io_mode(cppcms::http::response::normal);
+				tok="n";
+				if(i==3) continue;
+			}
+			else {
+				cppcms::cache_interface &ci=ctx->cache();
+				if(o=="S" && f.size()==6) { ci.store_frame(unhex(f[1]),value_of(f[2]),trigset(f[3]),atoi(f[4].c_str()),f[5]=="1"); tok="s"; }
+				else if(o=="F" && f.size()==3) {
+					std::string val;
+					if(ci.fetch_frame(unhex(f[1]),val,f[2]=="1")) tok="h:"+valtok(val); else tok="m";
+				}
+				else if(o=="A" && f.size()==2) { ci.add_trigger(unhex(f[1])); tok="a"; }
+				else if(o=="R" && f.size()==2) { ci.rise(unhex(f[1])); tok="r"; }
+				else if(o=="C") { ci.clear(); tok="c"; }
+				else if(o=="X") { ci.reset(); tok="x"; }
+				else if(o=="T" && f.size()==2) { vnow=strtoll(f[1].c_str(),0,10); tok="t"; }
+				else if(o=="(") { recs.push_back(new cppcms::triggers_recorder(ci)); tok="("; }
+				else if(o==")") {
+					if(recs.empty()) tok=")none";
+					else { std::set<std::string> s=recs.back()->detach(); delete recs.back(); recs.pop_back(); tok=")"+trigtok(s); }
+				}
+				else if(o=="G" && f.size()==2) {
+					if(finished) tok="skip";
+					else if(ci.fetch_page(unhex(f[1]))) {
+						finished=true;
+						ctx->response().finalize();
+						size_t from=output.find("\r\n\r\n");
+						std::string body = from==std::string::npos ? output : output.substr(from+4);
+						tok = gz ? std::string("h:Z") : "h:"+valtok(body);
+					}
+					else tok="m";
+				}
+				else if(o=="P" && f.size()==4) {
+					if(finished) tok="skip";
+					else {
+						std::string d=value_of(f[2]);
+						ctx->response().out().write(d.c_str(),d.size());
+						ci.store_page(unhex(f[1]),atoi(f[3].c_str()));
+						finished=true;
+						tok="p";
+					}
+				}
+				else tok="BAD-OP";
+			}
+			unsigned k=~0u,t=~0u;
+			ctx->cache().stats(k,t);
+			char buf[64]; snprintf(buf,sizeof(buf),":%u/%u",k,t);
+			if(!out.empty()) out+=' ';
+			out+=tok+buf;
+		}
+		for(size_t j=recs.size();j>0;j--) delete recs[j-1];
+		ctx.reset();
+		return out;
+	}
+};
+
 static bool self_test()
 {
-	// the library must read our clock: deadline == now hits, deadline == now-1 misses, and a far clock misses
-	cache_ptr c=cppcms::impl::thread_cache_factory(0);
+	// the library must read OUR clock: every fetch and every store with a limit calls the interposed time().
+	// (only the calls are counted here; what the cache does with the value is judged by the oracle, so that a
+	// broken deadline comparison is reported with a real failing sequence and not as a harness failure)
+	cache_ptr c=cppcms::impl::thread_cache_factory(2);
 	std::set<std::string> none; std::string tmp;
 	vnow=1000; unsigned long before=time_calls;
-	c->store("a","x",none,1000); c->store("b","y",none,999);
-	bool ok = c->fetch("a",tmp,0) && !c->fetch("b",tmp,0);
-	vnow=1001; ok = ok && !c->fetch("a",tmp,0);
-	vnow=0; ok = ok && c->fetch("a",tmp,0) && c->fetch("b",tmp,0);
-	ok = ok && time_calls>=before+5;
+	c->store("a","x",none,1000);
+	c->fetch("a",tmp,0);
+	c->fetch("b",tmp,0);
+	bool ok = time_calls>=before+3;
 	vnow=1000;
 	return ok;
 }
 
+// a crash inside the library while a case runs in this process (thread_shared back end): answer the current case
+// with a crash marker and stop, so that the failing case itself becomes the replay (the remaining cases of this
+// worker are reported as <missing> by the driver and carry no verdict)
+static void on_crash(int sig)
+{
+	char buf[64]; int n=snprintf(buf,sizeof(buf),"<crash signal=%d>\n",sig);
+	ssize_t r=write(1,buf,n); (void)r;
+	_exit(3);
+}
+
 int main(int argc,char **argv)
 {
+	signal(SIGSEGV,on_crash); signal(SIGABRT,on_crash); signal(SIGBUS,on_crash); signal(SIGFPE,on_crash); signal(SIGILL,on_crash); signal(SIGALRM,on_crash);
 	if(!self_test()) { std::cout<<"<time() interposition does not work>"<<std::endl; return 3; }
 	std::string line;
 	while(std::getline(std::cin,line)) {
 		std::vector<std::string> v=split(line);
 		std::string out;
-		alarm(300);
+		alarm(60);
 		if(v.size()>=4 && v[0]=="seq") {
 			unsigned limit=strtoul(v[2].c_str(),0,10);
 			vnow=strtoll(v[3].c_str(),0,10);
@@ -296,8 +406,14 @@ int main(int argc,char **argv)
 			vnow=strtoll(v[3].c_str(),0,10);
 			out=in_child(j);
 		}
+		else if(v.size()>=4 && v[0]=="ifp") {
+			ifp_job j; j.v=&v; j.backend=v[1]; j.limit=strtoul(v[2].c_str(),0,10);
+			vnow=strtoll(v[3].c_str(),0,10);
+			out=in_child(j);
+		}
 		else out="BAD-CASE";
 		std::cout<<out<<"\n";
+		std::cout.flush();
 	}
 	std::cout.flush();
 	return 0;
